@@ -60,11 +60,16 @@ pub async fn poll_limited<F: Future>(fut: F, k: u32, at_wake: bool) -> Lim<F::Ou
     .await
 }
 
+thread_local! {
+    /// payload bytes per frame of the multi-frame messages (480 for 512-byte frames)
+    static FRAME_UNIT: std::cell::Cell<usize> = std::cell::Cell::new(480);
+}
+
 fn message(uid: u64, frames: u32) -> Msg {
     let mut m = msgs::gen_message(uid, 100, 1);
     if frames > 1 {
-        // several 512-byte frames
-        let len = 480 * (frames as usize - 1) + 100;
+        // several frames (of 512 bytes, or of 64 KiB in the large-message class)
+        let len = FRAME_UNIT.with(|u| u.get()) * (frames as usize - 1) + 100;
         let mut b = uid.to_be_bytes().to_vec();
         b.resize(len, (uid % 251) as u8);
         m.body = Body::Value(AmqpValue(Value::Binary(Binary::from(b))));
@@ -236,7 +241,16 @@ pub async fn run_recv_seeded() {
 
 async fn run_recv(enumerated: bool) {
     let plan = draw_plan(enumerated);
-    let (ccfg, lcfg) = draw_cfgs();
+    let (mut ccfg, mut lcfg) = draw_cfgs();
+    // large-message class: frames of 64 KiB, deliveries of up to ~200 KB in 2-4 frames (whatever a
+    // recv does differently for a big delivery happens within the enumerated polls)
+    FRAME_UNIT.with(|u| u.set(480));
+    if choice(5) == 1 {
+        ccfg.max_frame_size = 65536;
+        lcfg.max_frame_size = 65536;
+        FRAME_UNIT.with(|u| u.set(65_000));
+        sim::probe("recv-of-deliveries-above-64-KiB");
+    }
     let (nab, nba, nd) = world::draw_net(false);
     sim::set_config(format!(
         "variant=recv-{} target={} k={} at-wake={} auto-accept={} credit={:?} frames={:?} C[{}] L[{}] {}",
@@ -455,6 +469,7 @@ pub async fn run_send_seeded() {
 
 async fn run_send(enumerated: bool) {
     let plan = draw_plan(enumerated);
+    FRAME_UNIT.with(|u| u.set(480));
     let (ccfg, lcfg) = draw_cfgs();
     let (nab, nba, nd) = world::draw_net(false);
     let snd_mode = match choice(3) {
